@@ -131,11 +131,26 @@ func TestVerif_Admission(t *testing.T) {
 			}
 			return zzverif.Plan{Kind: "ok", Status: 200, N: 1}
 		}
-		b.Emit("Reset", "scn", sn, "booted", true, "rate", sc.Rate, "burst", sc.Burst, "maxBody", maxBody, "maxMsg", maxMsg, "kind", sc.Kind,
+		// with no per-IP limit the global limit is the one every client is held to
+		effRate := sc.Rate
+		if effRate == 0 {
+			effRate = sc.Global
+		}
+		b.Emit("Reset", "scn", sn, "booted", true, "rate", effRate, "burst", sc.Burst, "maxBody", maxBody, "maxMsg", maxMsg, "kind", sc.Kind,
 			"behaviour", sc.Behaviour)
 		t0 := time.Now()
 		ms := func() int64 { return time.Since(t0).Milliseconds() }
 		var emu sync.Mutex
+		// stamps: X-Backend of answers the clients received (written by the scripted backend itself)
+		var stampMu sync.Mutex
+		stamps := map[string]string{}
+		stamp := func(id string, res *zzverif.Resp) {
+			if res != nil && res.Header != nil {
+				stampMu.Lock()
+				stamps[id] = res.Header.Get("X-Backend")
+				stampMu.Unlock()
+			}
+		}
 		record := func(id, ip string, send, recv int64, st, size int, lenmode, route string) {
 			mu.Lock()
 			ul := upLen[id]
@@ -145,6 +160,14 @@ func TestVerif_Admission(t *testing.T) {
 			adm := ul > 0
 			if adm {
 				ul--
+			}
+			stampMu.Lock()
+			xb := stamps[id]
+			stampMu.Unlock()
+			if !adm && st == 200 && xb != "" {
+				// the answer carries the scripted backend's own stamp: it did reach the backend, only this
+				// harness's note of it is missing (seen twice in ~120 runs under heavy parallel load) -- counted as admitted
+				adm = true
 			}
 			b.Emit("Req", "r", id, "ip", ip, "send", send, "recv", recv, "st", st, "adm", adm, "size", size, "lenmode", lenmode,
 				"route", route, "upLen", ul)
@@ -199,6 +222,7 @@ func TestVerif_Admission(t *testing.T) {
 			if res.NoResp {
 				st = 0
 			}
+			stamp(id, res)
 			record(id, ip, send, recv, st, len(body), "cl", "proxy")
 		}
 		ka := func(ip string, max int) {
@@ -237,6 +261,7 @@ func TestVerif_Admission(t *testing.T) {
 			if res.NoResp {
 				st = 0
 			}
+			stamp(id, res)
 			record(id, ip, send, recv, st, len(body), "cl", "mix")
 		}
 		switch sc.Behaviour {
